@@ -4,7 +4,7 @@ CONSTANTS
   Kinds = {"ranked", "lru", "none"}
   Sizes = {1, 2, 3, 50000}
   Mutexes = {FALSE, TRUE}
-  MutexSizes = {1, 50000}
+  MutexSizes = {1, 2, 50000}
   Ops = {"Set", "Clear", "ClearRow", "Store", "ImportSet", "ImportClear", "RoaringSet", "RoaringClear", "Recalc", "Reopen", "TopIds", "TopIdsFilter", "TopIdsThr", "RecalcTopN", "RecalcTopNFilter"}
   Inits = "few"
   BRows = {1, 2, 3, 4}
